@@ -19,6 +19,10 @@ Threads == 1..NThreads
 VARIABLES lastErr, calls, who, hist
 vars == <<lastErr, calls, who, hist>>
 NulSub(s) == [i \in 1..Len(s) |-> IF s[i] = 0 THEN 26 ELSE s[i]]
+(* a parse-error message echoes the line of the input on which the error lies: of a failing tail x *)
+(* appended to the valid prefix that is the part after its last line feed                          *)
+LastLine(s) == LET P == {i \in 1..Len(s) : s[i] = 10} IN
+               IF P = {} THEN s ELSE SubSeq(s, (CHOOSE i \in P : \A j \in P : j <= i) + 1, Len(s))
 Null == <<"null">>
 (* hist records every call with the last-error state of ALL threads after it (for replay) *)
 Snap(le) == [t \in Threads |-> IF le[t] = Null THEN [null |-> TRUE, b |-> <<>>] ELSE [null |-> FALSE, b |-> le[t][2]]]
@@ -26,7 +30,7 @@ Init == lastErr = [t \in Threads |-> Null] /\ calls = 0 /\ who = 0 /\ hist = <<>
 Ok(t) == /\ calls < MaxCalls /\ calls' = calls + 1 /\ who' = t /\ UNCHANGED lastErr
          /\ hist' = Append(hist, [th |-> t, call |-> "ok", text |-> <<>>, after |-> Snap(lastErr)])
 Fail(t) == /\ calls < MaxCalls /\ calls' = calls + 1 /\ who' = t
-           /\ \E x \in Texts : /\ lastErr' = [lastErr EXCEPT ![t] = <<"text", NulSub(x)>>]
+           /\ \E x \in Texts : /\ lastErr' = [lastErr EXCEPT ![t] = <<"text", NulSub(LastLine(x))>>]
                                  /\ hist' = Append(hist, [th |-> t, call |-> "fail", text |-> x, after |-> Snap(lastErr')])
 Clear(t) == /\ calls < MaxCalls /\ calls' = calls + 1 /\ who' = t /\ lastErr' = [lastErr EXCEPT ![t] = Null]
             /\ hist' = Append(hist, [th |-> t, call |-> "clear", text |-> <<>>, after |-> Snap(lastErr')])
